@@ -20,6 +20,7 @@ func copyAndLanes(id string) func(prog *Program, repo, tier string) ([]simpleObl
 		out = append(out, storesViaObligations(prog, id)...)
 		out = append(out, unrolledObligations(prog, id)...)
 		out = append(out, noEscapeObligations(prog, id)...)
+		out = append(out, fieldOrderObligations(prog, id)...)
 		return append(out, readonlyObligations(prog, id)...), nil
 	}
 }
@@ -83,9 +84,10 @@ var propertyConfigs = map[string]*propertyConfig{
 			"the slice primitives of utils/buffer (Read/WriteUint{8,16,32,64}Slice) are verified at count level with their decode / encode loops skipped (loopabs: stored arrays unknown afterwards, panics inside those loops not checked) and their refill recursion under a measure (decreases len(c)): every recursive call is on a strictly shorter slice",
 			"bsize(x), the abstract announced size at call sites, is an uninterpreted function of the contents of x (identity = access path + store version): BinarySize is assumed deterministic in the contents",
 			"the length of encoding/json output (MetaData writers, Parameters) is outside the reach of the contracts: the metadata WriteTo methods are assumed to write the announced size",
+			"fieldorder contracts (typed AST): the receiver fields that take part in Write*/write* calls of WriteTo and in Read*/read* calls of ReadFrom occur in the same order (necessary for faithfulness, not sufficient)",
 			"NOT decided: byte-level faithfulness (that the bytes read back give an object EQUAL to the original), equality of MarshalBinary and WriteTo bytes, behaviour under truncation at every offset (only: no success is reported with fewer bytes than announced), Parameters / literal JSON forms",
 		},
-		Trusted: stdTrusted,
+		Trusted: stdTrusted, Simple: copyAndLanes("C08"),
 	},
 	"C11": {
 		ID: "C11", Packages: []string{"./..."}, Level: "proof",
